@@ -444,6 +444,22 @@ func sweepC17(tier string, shard, shards int, emit func(C17Case)) {
 			emit(C17Case{Op: "in", A: m.V{X: longElems([]string{"common"})[0]}, B: m.V{X: longElems(b)}, ALit: true, BLit: lit, Origin: "sweep-long-elements"})
 		}
 	}
+	// element lengths around powers of two, on the scan path and on the hashing path
+	for _, ln := range []int{0, 1, 15, 16, 17, 31, 32, 33, 63, 64, 65, 127, 128, 129, 255, 256, 257, 1023, 1024, 1025} {
+		for _, n := range []int{4, 60} {
+			a, b := make([]string, n), make([]string, n)
+			for i := range a {
+				a[i] = strings.Repeat("a", ln) + elemStr(int64(i))
+				b[i] = strings.Repeat("a", ln) + elemStr(int64(i+n))
+			}
+			common := strings.Repeat("c", ln)
+			a[n/2], b[n-1] = common, common
+			emit(C17Case{Op: "overlap", A: m.V{X: a}, B: m.V{X: b}, Origin: "sweep-element-length"})
+			emit(C17Case{Op: "in", A: m.V{X: common}, B: m.V{X: b}, Origin: "sweep-element-length"})
+			b[n-1] = common + "x"
+			emit(C17Case{Op: "overlap", A: m.V{X: a}, B: m.V{X: b}, Origin: "sweep-element-length"})
+		}
+	}
 	// pairs of different literals whose elements, joined by blanks, read the same
 	for _, n := range []int{3, 31, 32, 33, 64} {
 		fill := make([]string, n)
